@@ -204,7 +204,8 @@ def shared_date_programs(draw):
         pre = draw(st.sampled_from([0, 0, 0.25, 0.5]))
         if pre:
             steps.append({'op': 'sleep', 'd': pre})
-        form = draw(st.sampled_from(['wait', 'wait', 'torn', 'torn', 'guarded', 'nested', 'guard_and_wait']))
+        form = draw(st.sampled_from(['wait', 'wait', 'torn', 'torn', 'guarded', 'nested', 'guard_and_wait', 'nested_short',
+                                     'guard_and_torn_wait']))
         wait = {'op': kind, 't': T}
         if form == 'wait':
             steps.append(wait)
@@ -219,6 +220,16 @@ def shared_date_programs(draw):
         elif form == 'nested':
             steps.append({'op': 'until', 'notif': [guard, T], 'children': [], 'body': [
                 {'op': 'until', 'notif': [guard, T], 'children': [], 'body': [{'op': 'sleep', 'd': 5}]},
+                {'op': 'sleep', 'd': 5}]})
+        elif form == 'nested_short':
+            # the inner block on the same object ends by itself before the date: the outer one is still guarded by it
+            steps.append({'op': 'until', 'notif': [guard, T], 'children': [], 'body': [
+                {'op': 'until', 'notif': [guard, T], 'children': [], 'body': [{'op': 'sleep', 'd': draw(st.sampled_from([0, 0.25]))}]},
+                {'op': 'sleep', 'd': 5}]})
+        elif form == 'guard_and_torn_wait':
+            # ... likewise a wait for the guard's own object that is given up before the date
+            steps.append({'op': 'until', 'notif': [guard, T], 'children': [], 'body': [
+                {'op': 'until', 'notif': ['delay', draw(st.sampled_from([0, 0.25]))], 'children': [], 'body': [wait]},
                 {'op': 'sleep', 'd': 5}]})
         else:
             steps.append({'op': 'until', 'notif': [guard, T], 'children': [], 'body': [wait, {'op': 'sleep', 'd': 5}]})
@@ -341,7 +352,8 @@ class C01(Check):
             'timed waits (time+d, time==t, time>=t, time<t, instant, eternity) on a dyadic grid '
             '(10% arbitrary floats); oracle = independent clock model + probe monotonicity. '
             'non-trivial = program has >=2 activities resuming at one date, or a past/now date, '
-            'or a zero delay, or a never-wait; distinct by sha1 of the canonical program.')
+            'or a zero delay, or a never-wait; distinct by sha1 of the canonical program. Also: until-blocks guarded by dates, one '
+            'condition object per date shared by the waits, guards and blocks of a program, directed programs around one date object.')
     budgets = {'quick': dict(examples=1600, procs=4), 'thorough': dict(examples=160000, procs=16)}
     level_text = ('Generated-program search against an independent clock model: every timed resume, block '
                   'exit and child start of every generated program must happen at exactly the modelled date; '
